@@ -51,8 +51,12 @@ func safely(f func()) (panicked bool, val string) {
 	defer func() {
 		if p := recover(); p != nil {
 			st := string(debug.Stack())
-			if len(st) > 1500 {
-				st = st[:1500]
+			// keep the frames of the code under test, not the checker's own
+			if i := strings.Index(st, "panic("); i >= 0 {
+				st = st[i:]
+			}
+			if len(st) > 700 {
+				st = st[:700] + " ..."
 			}
 			panicked, val = true, fmt.Sprintf("%v\n%s", p, st)
 		}
@@ -150,6 +154,15 @@ func matchesNoWindowUpdate(st state, cs []entry, got state) bool {
 
 // checkUpdate: every ordering of the change set is executed on its own copy of the real set.
 func checkUpdate(vs *types.ValidatorSet, st state, cs []entry, allPerms bool) (stepResult, []finding) {
+	var extra [][]entry
+	if allPerms {
+		extra = permutations(cs)
+	}
+	return checkUpdateOrders(vs, st, cs, extra)
+}
+
+// checkUpdateOrders executes cs and each of the given re-orderings of cs, each on its own copy.
+func checkUpdateOrders(vs *types.ValidatorSet, st state, cs []entry, extra [][]entry) (stepResult, []finding) {
 	var fs []finding
 	res := stepResult{}
 	exp, rej, info := refUpdate(st.toRef(), toChanges(cs), capBig, true)
@@ -157,10 +170,7 @@ func checkUpdate(vs *types.ValidatorSet, st state, cs []entry, allPerms bool) (s
 	if !wellFormed(st) {
 		return res, []finding{{"C12|oracle=member-well-formed", "operation offered on a malformed set: " + st.String(), nil}}
 	}
-	orders := [][]entry{cs}
-	if allPerms {
-		orders = append(orders, permutations(cs)...)
-	}
+	orders := append([][]entry{cs}, extra...)
 	shape := func() string { return shapeOf(cs) }
 	var firstErr bool
 	var firstKey string
